@@ -8,7 +8,7 @@ from ..domains import Lin, linform
 from ..cfg import eval3, UNK
 from ..symexec import SymExec
 from ..util import explore, mk_atoms
-from .slots import FRAG_NLA, FRAG_CHIC
+from .slots import FRAG_NLA, FRAG_CHIC, P
 
 SYMBOLS = {
     'R1.reference_start': 'rs', 'R1.reference_end': 're',
@@ -340,6 +340,129 @@ def r7(ctx):
         why = (f'an inward pair is rejected under conditions that are not mirror images of each other: reverse R1 (mirrored) {sorted(map(sorted, rejected[True]))}, forward R1 {sorted(map(sorted, rejected[False]))}: '
                'one orientation of a fragment is rejected where its mirror image is accepted')
     ctx.emit('C09-R7', ok, FRAG_CHIC, top, 'scCHIC orientation test: ' + why, key='scCHIC:orientation-symmetric', what='scCHIC: paired-end acceptance differs between the two strands')
+
+
+@rule('C09', 'C09-R8', 'a cut site at coordinate 0 is a site: where the result of identify_site() decides by its truth value whether the fragment is valid, every '
+                       'accepting return hands back something that is truthy for every coordinate (a non-empty tuple, True) - never the bare coordinate')
+def r8(ctx):
+    n = 0
+    for rel, cls in ((FRAG_NLA, 'NlaIIIFragment'), (FRAG_CHIC, 'CHICFragment')):
+        m = ctx.ix.module(rel)
+        init = m.defs.get(f'{cls}.__init__', [None])[0]
+        ident = m.defs.get(f'{cls}.identify_site', [None])[0]
+        if init is None or ident is None:
+            continue
+        # is the result used as a truth value?
+        tested = []
+        for t in walk_no_nested(init):
+            if isinstance(t, (ast.If, ast.While, ast.IfExp)):
+                for c in ast.walk(t.test):
+                    if isinstance(c, ast.Call) and src(c.func) == 'self.identify_site':
+                        par_cmp = any(isinstance(p_, ast.Compare) and any(c is x for x in ast.walk(p_)) for p_ in ast.walk(t.test))
+                        if not par_cmp:
+                            tested.append(t)
+        ncalls = sum(1 for c in walk_no_nested(init) if isinstance(c, ast.Call) and src(c.func) == 'self.identify_site')
+        n += 1 if ncalls else 0
+        if not tested:
+            if ncalls:
+                ctx.emit('C09-R8', True, rel, init, f'{cls}.__init__ does not use the result of identify_site() as a truth value', key=f'site-zero-is-a-site:{cls}', nontrivial=False)
+            continue
+        env = {}
+        for a in walk_no_nested(ident):
+            if isinstance(a, ast.Assign) and len(a.targets) == 1 and isinstance(a.targets[0], ast.Name):
+                env.setdefault(a.targets[0].id, []).append(a.value)
+        bad, unsure = [], []
+        for r in [x for x in walk_no_nested(ident) if isinstance(x, ast.Return) and x.value is not None]:
+            vals = [r.value]
+            if isinstance(r.value, ast.Name):
+                vals = env.get(r.value.id, [r.value])
+            for v in vals:
+                if isinstance(v, ast.Constant) and (v.value is None or v.value is False or v.value is True):
+                    continue
+                if isinstance(v, ast.Tuple) and v.elts:
+                    continue
+                lf = linform(v)
+                if lf is not None and (lf.coef or isinstance(v, (ast.BinOp, ast.Name))):
+                    bad.append((r, v))
+                else:
+                    unsure.append((r, v))
+        for r, v in bad[:1]:
+            ctx.emit('C09-R8', False, rel, r, f'{cls}.identify_site returns the coordinate `{src(v)}` and {cls}.__init__ tests the result for truth: a site at reference coordinate 0 counts as '
+                     f'"no site", the fragment is rejected and never deduplicated', key=f'site-zero-is-a-site:{cls}', what=f'{cls}: cut site at coordinate 0 is treated as missing')
+        if not bad:
+            ctx.emit('C09-R8', not unsure, rel, ident, f'{cls}: the accepting returns of identify_site are truthy for every coordinate' if not unsure else
+                     f'{cls}.identify_site returns `{src(unsure[0][1])[:50]}`, truthiness for coordinate 0 not decided', key=f'site-zero-is-a-site:{cls}', undecided=bool(unsure))
+    ctx.need('C09-R8', n, 1, 'fragment constructors that call identify_site()')
+
+
+@rule('C09', 'C09-R9', 'the site is recorded as computed: set_site writes the position it is given into the DS tag, the site location and the match hash - the '
+                       'parameter is not rebound (clamped, rounded) on the way, which would move sites at a contig border on one strand only')
+def r9(ctx):
+    n = 0
+    for rel, cls in ((FRAG_CHIC, 'CHICFragment'), (FRAG_NLA, 'NlaIIIFragment'), (P + 'fragment/fragment.py', 'Fragment')):
+        if not ctx.ix.exists(rel):
+            continue
+        for f in ctx.ix.module(rel).defs.get(f'{cls}.set_site', []):
+            n += 1
+            par = [a.arg for a in f.args.args + f.args.kwonlyargs if 'pos' in a.arg]
+            if not par:
+                ctx.emit('C09-R9', False, rel, f, f'{cls}.set_site: position parameter not found', key=f'site-recorded:{cls}', undecided=True)
+                continue
+            pp = par[0]
+            reb = [st for st in walk_no_nested(f) if isinstance(st, (ast.Assign, ast.AugAssign)) and any(isinstance(x, ast.Name) and x.id == pp and isinstance(x.ctx, ast.Store)
+                   for t in (st.targets if isinstance(st, ast.Assign) else [st.target]) for x in ast.walk(t))]
+            ds = [c for c in walk_no_nested(f) if isinstance(c, ast.Call) and isinstance(c.func, ast.Attribute) and c.func.attr == 'set_meta' and c.args and src(c.args[0]) == "'DS'"]
+            wrong = [c for c in ds if len(c.args) < 2 or src(c.args[1]) != pp]
+            if reb:
+                ctx.emit('C09-R9', False, rel, reb[0], f'{cls}.set_site rebinds its position: `{src(reb[0])[:60]}` - the recorded site is no longer the computed one (a clamp moves negative sites of forward reads at '
+                         f'the contig start, their mirror images at the contig end stay put)', key=f'site-recorded:{cls}', what=f'{cls}.set_site alters the site position')
+            elif wrong:
+                ctx.emit('C09-R9', False, rel, wrong[0], f'{cls}.set_site writes `{src(wrong[0])[:60]}` to DS, not the position it was given', key=f'site-recorded:{cls}', what=f'{cls}.set_site: DS is not the given position')
+            else:
+                ctx.emit('C09-R9', True, rel, f, f'{cls}.set_site records `{pp}` unmodified ({len(ds)} DS store(s))', key=f'site-recorded:{cls}')
+    ctx.need('C09-R9', n, 2, 'set_site methods')
+
+
+@rule('C09', 'C09-R10', 'a scCHIC molecule anchors on its outer-most fragment on BOTH strands: when a fragment joins, the molecule site moves to the smaller coordinate for '
+                        'forward and to the larger coordinate for reverse fragments (mirror images); one rule for both strands groups mirrored fragment sets differently')
+def r10(ctx):
+    rel = P + 'molecule/chic.py'
+    f = ctx.fn(rel, 'CHICMolecule._add_fragment')
+    frag = f.args.args[1].arg
+    res = {}
+    for rev in (True, False):
+        facts = {f'{frag}.strand': rev, 'self.site_location is None': False, f'{frag}.site_location is not None': True, f'{frag}.site_location is None': False,
+                 'self.site_location is not None': True, f'{frag}.is_reverse()': rev}
+        outs = set()
+        for r in explore(f.body, mk_atoms(facts), names=None):
+            st = [(t, v) for t, v, k in r['stores'] if t.replace(' ', '') == 'self.site_location[1]']
+            outs.add(tuple(v for t, v in st))
+        res[rev] = outs
+
+    def kind(v):
+        e = ast.parse(v, mode='eval').body
+        if isinstance(e, ast.Call) and isinstance(e.func, ast.Name) and e.func.id in ('min', 'max') and len(e.args) == 2:
+            a = {src(x).replace(' ', '') for x in e.args}
+            if a == {f'{frag}.site_location[1]', 'self.site_location[1]'}:
+                return e.func.id
+        return None
+    ok = True
+    detail = {}
+    undec = False
+    for rev, want in ((True, 'max'), (False, 'min')):
+        ks = set()
+        for o in res[rev]:
+            if len(o) != 1:
+                ks.add(None if o else 'no update')
+            else:
+                ks.add(kind(o[0]))
+        detail['reverse' if rev else 'forward'] = sorted(str(k) for k in ks)
+        if ks != {want}:
+            ok = False
+            if None in ks:
+                undec = True
+    ctx.emit('C09-R10', ok, rel, f, f'molecule site update: {detail} (required: forward -> min, reverse -> max of the fragment and molecule site)', key='molecule-site-mirror',
+             undecided=undec and not ok, witness=detail if not ok else None, what='CHICMolecule._add_fragment: molecule site update is not mirror symmetric')
 
 
 META = {
